@@ -694,6 +694,19 @@ func checkTmAddressFollowsKey(c *core.Ctx, rule string) {
 			recompute[w.Fn] = true
 		}
 	}
+	// … and the methods that only wrap one (take the lock, call the …Locked variant)
+	for round := 0; round < 2; round++ {
+		for _, m := range c.SrcFuncs(core.PkgState + "/candidates") {
+			if recompute[m] || len(m.Params) != 1 || m.Blocks == nil {
+				continue
+			}
+			for _, s := range core.Sites(m) {
+				if h := s.Common.StaticCallee(); h != nil && recompute[h] && s.Recv() != nil && core.Unwrap(s.Recv()) == ssa.Value(m.Params[0]) {
+					recompute[m] = true
+				}
+			}
+		}
+	}
 	n := 0
 	for _, w := range c.FieldWrites(cand, "PubKey") {
 		st, ok := w.Instr.(*ssa.Store)
